@@ -861,7 +861,7 @@ func listPlans(c *engine.Ctx, prop string) []listPlan {
 	if prop == "C03" {
 		ux := newListUniverse("ab/", 1, 2, "a", 0)
 		ux.name = "xml-unrepresentable"
-		ux.keys = []string{"a", "a\x01b", "a\uFFFEb"}
+		ux.keys = []string{"a", "a\x01b", "a\uFFFEb", "a\xffb"} // the last one is not UTF-8 at all: no S3 key (the server may refuse it)
 		ux.prefixes = []string{"", "a"}
 		plans = append(plans, listPlan{cfg: drv.Config{Kind: drv.Mem}, u: ux, depth: 2}, listPlan{cfg: drv.Config{Kind: drv.MultiMem}, u: ux, depth: 2})
 	}
